@@ -133,6 +133,33 @@ func c20GroupKind(g *groups.G) c20kind {
 				return fp(x.MarshalBinary()) + fp(y.MarshalBinary())
 			}},
 		}
+		// independent operations on goroutine-local receivers: they share nothing visible, so any interference comes from
+		// hidden package-level state (cached hashers, tables, scratch buffers)
+		hmsg := rng.Bytes(40)
+		pseed := string(rng.Bytes(16))
+		if g.CanHash {
+			acts = append(acts, c20action{"Point.Hash(local receiver)", func() string {
+				return fp(g.Point().(groups.Hasher).Hash(append([]byte(nil), hmsg...)).MarshalBinary())
+			}})
+		}
+		if _, ok := g.Point().(interface {
+			Hash(m []byte, dst string) kyber.Point
+		}); ok {
+			acts = append(acts, c20action{"Point.Hash(m,dst)(local receiver)", func() string {
+				h := g.Point().(interface {
+					Hash(m []byte, dst string) kyber.Point
+				})
+				return fp(h.Hash(append([]byte(nil), hmsg...), "QUUX-V01-CS02-with-edwards25519_XMD:SHA-512_ELL2_RO_").MarshalBinary())
+			}})
+		}
+		if g.CanPick {
+			acts = append(acts, c20action{"Point.Pick(local receiver, local stream)", func() string {
+				return fp(g.Point().Pick(groups.Stream(pseed)).MarshalBinary())
+			}})
+		}
+		acts = append(acts, c20action{"Scalar.Pick/SetBytes(local receiver)", func() string {
+			return fp(g.Scalar().Pick(groups.Stream(pseed)).MarshalBinary()) + fp(g.Scalar().SetBytes(append([]byte(nil), hmsg...)).MarshalBinary())
+		}})
 		if g.CanMulNil {
 			acts = append(acts, c20action{"Point.Mul(s,nil)", func() string { return fp(g.Point().Mul(s, nil).MarshalBinary()) }})
 		}
